@@ -98,7 +98,7 @@ func genC07(p *Plan, tier string) {
 	}
 	// the service path must agree with the library path
 	h := httpOp("http", JSONBytes(q.Body))
-	h.MapOrder = randMapOrder(r)
+	h.MapOrder = full.MapOrder // compared byte for byte with `full`: order-dependence is C02's matter, not this check's
 	h.Expect = &Expect{SameAs: "full"}
 	p.Ops = append(p.Ops, h)
 	p.Profile = fmt.Sprintf("%s biases=%d", q.Method, len(biases))
@@ -121,6 +121,7 @@ func (g *Gen) anyRequest(r *Rand) (kind string, body []byte) {
 func genC02(p *Plan, tier string) {
 	r := NewRand(Mix(p.Seed, "c02"))
 	g := &Gen{R: NewRand(Mix(p.Seed, "gen")), O: SwarmOpts(NewRand(Mix(p.Seed, "profile")))}
+	g.O.CoinFlips = true
 	k := r.Range(2, 4)
 	bodies := make([][]byte, k)
 	for i := 0; i < k; i++ {
@@ -398,8 +399,15 @@ func genC09(p *Plan, tier string) {
 	if g.O.MaxAlts < 3 {
 		g.O.MaxAlts = 3
 	}
+	g.O.CoinFlips = r.Bool(0.5)
 	k := r.Range(2, 3)
 	bodies := make([][]byte, k)
+	// every operation on the same request uses the same map order: a difference between them is
+	// then a matter of history / aliasing (this property), not of iteration order (C02)
+	orders := make([]*MapOrder, k)
+	for i := range orders {
+		orders[i] = randMapOrder(r)
+	}
 	for i := 0; i < k; i++ {
 		if r.Bool(0.85) {
 			bodies[i] = JSONBytes(g.Valid().Body)
@@ -408,7 +416,7 @@ func genC09(p *Plan, tier string) {
 		}
 		op := libOp(fmt.Sprintf("first%d", i), bodies[i])
 		op.Slack = r.Intn(4)
-		op.MapOrder = randMapOrder(r)
+		op.MapOrder = orders[i]
 		op.Expect = &Expect{C09: true}
 		p.Ops = append(p.Ops, op)
 	}
@@ -418,19 +426,19 @@ func genC09(p *Plan, tier string) {
 		id := fmt.Sprintf("h%d", j)
 		switch r.Intn(6) {
 		case 0: // the same value again
-			op := &Op{Kind: "lib", ID: id, Resubmit: fmt.Sprintf("first%d", i), MapOrder: randMapOrder(r)}
+			op := &Op{Kind: "lib", ID: id, Resubmit: fmt.Sprintf("first%d", i), MapOrder: orders[i]}
 			op.SetBody(bodies[i])
 			op.Expect = &Expect{C09: true, SameAs: fmt.Sprintf("first%d", i)}
 			p.Ops = append(p.Ops, op)
 		case 1: // tight-capacity clone
 			op := libOp(id, bodies[i])
 			op.Slack = 0
-			op.MapOrder = randMapOrder(r)
+			op.MapOrder = orders[i]
 			op.Expect = &Expect{C09: true, SameAs: fmt.Sprintf("first%d", i)}
 			p.Ops = append(p.Ops, op)
 		case 2: // over the wire
 			op := httpOp(id, bodies[i])
-			op.MapOrder = randMapOrder(r)
+			op.MapOrder = orders[i]
 			op.Expect = &Expect{C09: true, SameAs: fmt.Sprintf("first%d", i), EchoReq: true}
 			p.Ops = append(p.Ops, op)
 		case 3: // an internal failure in the middle of the pipeline: the input must still be untouched, the echo faithful
@@ -441,16 +449,30 @@ func genC09(p *Plan, tier string) {
 			} else {
 				op = httpOp(id, bodies[i])
 			}
-			op.MapOrder = randMapOrder(r)
+			op.MapOrder = orders[i]
 			op.Inject = &Injection{Kind: r.PickS("bias", "listener", "method"), Index: r.Intn(3)}
 			op.Expect = &Expect{C09: true, EchoReq: true}
 			p.Ops = append(p.Ops, op)
-		case 4: // a request sharing its backing arrays with an earlier, longer one
-			op := libOp(id, bodies[i])
+		case 4: // a shorter request whose slices are prefixes of (and share memory with) an earlier one
+			var full map[string]interface{}
+			_ = json.Unmarshal(bodies[i], &full)
+			short := full
+			if ka := jarr(full["knownAlternatives"]); len(ka) > 1 {
+				last, _ := jmap(ka[len(ka)-1])["id"].(string)
+				if c := dropAlternative(full, last); c != nil {
+					short = c
+				}
+			}
+			op := libOp(id, JSONBytes(short))
 			op.PrefixOf = fmt.Sprintf("first%d", i)
-			op.MapOrder = randMapOrder(r)
-			op.Expect = &Expect{C09: true, SameAs: fmt.Sprintf("first%d", i)}
+			op.MapOrder = orders[i]
+			op.Expect = &Expect{C09: true}
 			p.Ops = append(p.Ops, op)
+			// the longer value the client still holds must be untouched and answer as before
+			again := &Op{Kind: "lib", ID: id + "b", Resubmit: fmt.Sprintf("first%d", i), MapOrder: orders[i]}
+			again.SetBody(bodies[i])
+			again.Expect = &Expect{C09: true, SameAs: fmt.Sprintf("first%d", i)}
+			p.Ops = append(p.Ops, again)
 		default: // a failing request in between
 			c := g.ViolateOne()
 			op := httpOp(id, JSONBytes(c.Body))
@@ -462,7 +484,7 @@ func genC09(p *Plan, tier string) {
 	for i := 0; i < k; i++ {
 		op := libOp(fmt.Sprintf("last%d", i), bodies[i])
 		op.Slack = r.Intn(3)
-		op.MapOrder = randMapOrder(r)
+		op.MapOrder = orders[i]
 		op.Expect = &Expect{C09: true, SameAs: fmt.Sprintf("first%d", i)}
 		p.Ops = append(p.Ops, op)
 	}
@@ -473,6 +495,10 @@ func genC09(p *Plan, tier string) {
 func genC10(p *Plan, tier string) {
 	r := NewRand(Mix(p.Seed, "c10"))
 	g := &Gen{R: NewRand(Mix(p.Seed, "gen")), O: SwarmOpts(NewRand(Mix(p.Seed, "profile")))}
+	g.O.CoinFlips = r.Bool(0.5)
+	// one map order for the whole run (decisions are counted per request): a concurrent response
+	// that differs from the solo one is then a matter of interference, not of iteration order
+	order := randMapOrder(r)
 	k := r.Range(2, 4)
 	type item struct {
 		body []byte
@@ -505,14 +531,14 @@ func genC10(p *Plan, tier string) {
 	solo := func() {
 		for i, it := range items {
 			op := mk(fmt.Sprintf("solo%d", i), it)
-			op.MapOrder = &MapOrder{Mode: "sorted"}
+			op.MapOrder = order
 			p.Ops = append(p.Ops, op)
 		}
 	}
 	solo()
 	groups := r.Range(1, 2)
 	for gi := 0; gi < groups; gi++ {
-		grp := &Op{Kind: "group", ID: fmt.Sprintf("grp%d", gi), MapOrder: randMapOrder(r), Sched: randSched(r)}
+		grp := &Op{Kind: "group", ID: fmt.Sprintf("grp%d", gi), MapOrder: order, Sched: randSched(r)}
 		for i, it := range items {
 			t := mk(fmt.Sprintf("grp%d.t%d", gi, i), it)
 			t.Expect = &Expect{SameAs: fmt.Sprintf("solo%d", i)}
@@ -530,6 +556,7 @@ func genC10(p *Plan, tier string) {
 func genC20(p *Plan, tier string) {
 	r := NewRand(Mix(p.Seed, "c20"))
 	g := &Gen{R: NewRand(Mix(p.Seed, "gen")), O: SwarmOpts(NewRand(Mix(p.Seed, "profile")))}
+	g.O.CoinFlips = r.Bool(0.5)
 	faulty := r.Bool(0.7) // fault-free and fault-injecting profiles are kept apart
 	p.Profile = "fault-free"
 	if faulty {
